@@ -541,6 +541,12 @@ pub fn ref_complete(lab: Lab, ptype: u16, pdu: &[u8], exts: &[ExtSpec], final_ma
 /// whatever remains goes in the end packet.  `crc_label`: label bytes as carried in the first
 /// fragment (empty for re-use / broadcast).
 pub fn ref_train(lab: Lab, ptype: u16, frag_id: u8, pdu: &[u8], cuts: &[usize]) -> Vec<Vec<u8>> {
+    ref_train_ext(lab, ptype, frag_id, pdu, cuts, &[])
+}
+
+/// like `ref_train`, the first fragment carrying a chain of (non-final) extensions
+pub fn ref_train_ext(lab: Lab, ptype: u16, frag_id: u8, pdu: &[u8], cuts: &[usize], exts: &[ExtSpec]) -> Vec<Vec<u8>> {
+    let ext_area: usize = if exts.is_empty() { 0 } else { exts.iter().map(|e| e.wire_len()).sum() };
     let label = lab.bytes();
     let total_len = (2 + label.len() + pdu.len()) as u16;
     let crc = refcrc::gse_crc(total_len, ptype, &label, pdu);
@@ -555,7 +561,7 @@ pub fn ref_train(lab: Lab, ptype: u16, frag_id: u8, pdu: &[u8], cuts: &[usize]) 
     let mut i = 0usize;
     loop {
         let is_first = i == 0;
-        let cap = if is_first { 4090 - label.len() } else { 4094 };
+        let cap = if is_first { 4090 - label.len() - ext_area } else { 4094 };
         let remaining = pdu.len() - pos;
         let n = if i < cuts.len() {
             cuts[i].min(cap).min(remaining)
@@ -571,7 +577,7 @@ pub fn ref_train(lab: Lab, ptype: u16, frag_id: u8, pdu: &[u8], cuts: &[usize]) 
             frag_id: Some(frag_id),
             total_len: if is_first { Some(total_len) } else { None },
             label: if is_first { label.clone() } else { vec![] },
-            exts: vec![],
+            exts: if is_first { exts.iter().map(|e| (e.id, e.data.clone())).collect() } else { vec![] },
             ptype: if is_first { Some(ptype) } else { None },
             first_type: None,
             payload: pdu[pos..pos + n].to_vec(),
